@@ -262,6 +262,20 @@ func c14R4(c *Ctx, id string) {
 			}
 		}
 		c.check(id+":(*Tx).CopyFile:success-returns-close-error", cf, wt.Pos(), "on success CopyFile returns the result of f.Close() (a failed flush on close is reported)", okRet, "the close error is dropped")
+		// a failed open of the destination is returned (nothing is copied into a nil file)
+		for _, ci := range fieldCallsIn(cf, c.dbField("openFile")) {
+			if call, ok := ci.(*ssa.Call); ok {
+				msg := errorHandled(call)
+				if msg == "" {
+					for _, t := range errTests(call) {
+						if reach(nil, []*ssa.BasicBlock{t.NonNil}, nil, nil)[wt] {
+							msg = "WriteTo is reachable although opening the destination failed"
+						}
+					}
+				}
+				c.check(id+":(*Tx).CopyFile:open-error", cf, call.Pos(), "if the destination cannot be opened CopyFile returns that error before copying", msg == "", msg)
+			}
+		}
 		// the destination is opened for writing with truncation, through db.openFile
 		okOpen := false
 		for _, ci := range fieldCallsIn(cf, c.dbField("openFile")) {
